@@ -1228,7 +1228,10 @@ func (g *gen) genOp(name string) {
 			// the chain changes, the leaf certificate and its key stay (an intermediate is added or dropped)
 			certs()
 			nc := cur.DeepCopy()
-			if len(cur.Data[api.TLSCertKey]) > len(leaf) {
+			if g.opt.Avoid["secret_no_aba"] {
+				// KF-secret-read-twice-aba: a secret never returns to bytes it had before (another intermediate each time)
+				nc.Data[api.TLSCertKey] = append(append([]byte{}, leaf...), g.nextCert().Crt...)
+			} else if len(cur.Data[api.TLSCertKey]) > len(leaf) {
 				nc.Data[api.TLSCertKey] = leaf
 			} else {
 				nc.Data[api.TLSCertKey] = append(append([]byte{}, leaf...), caPair.Crt...)
